@@ -14,13 +14,14 @@ import (
 func init() {
 	register(&Property{
 		ID:    "C09",
-		Rules: []string{"C09-R1", "C09-R2", "C09-R3", "C09-R4", "C09-R5", "C09-R6", "C09-R7"},
+		Rules: []string{"C09-R1", "C09-R2", "C09-R3", "C09-R4", "C09-R5", "C09-R6", "C09-R7", "C09-R8"},
 		Explain: "Decides how malformed entries reach the user: C09-R1 the line number is a loop-carried counter with 0 on entry and the same φ+1 on every back edge of the Scan loop (so blank, comment and note lines are counted); " +
 			"C09-R2 the quoted line is the raw Scanner.Text() result; C09-R3 every ParseCallback of the tree, given an error, stops with an error deriving from it or prints it and continues; " +
 			"C09-R4 lint writes its success message exactly when no malformed line was reported (and not silent); " +
 			"C09-R5 an error callback that does not stop leaves the open record in place, so every later malformed line of the record is still reported; " +
 			"C09-R6 the Error() text of ErrorBadSyntax and ErrorConversion contains Line unaltered (%s/%v/concatenation, not %q or a truncating verb) and LineNumber in decimal; " +
-			"C09-R7 the line classification table (C04-R1) gives every malformed line its error event on every occurrence.",
+			"C09-R7 the line classification table (C04-R1) gives every malformed line its error event on every occurrence; " +
+			"C09-R8 the commands' file helper hands the parser the opened file itself, not a filtered or rewritten stream, so physical line numbers are the file's.",
 		NotDecided: "the wording of the messages beyond containing the line and its number, and the arithmetic of what counts as a number (strconv.ParseFloat)",
 		Run: func(c *core.Ctx) {
 			ruleLineCounter(c, "C09-R1")
@@ -28,6 +29,7 @@ func init() {
 			ruleCallbackConsumers(c, map[string]bool{"C09-R3": true})
 			ruleLintVerdict(c, "C09-R4")
 			ruleErrorText(c, "C09-R6")
+			ruleFileReaders(c, "C09-R8")
 		},
 	})
 }
